@@ -572,6 +572,11 @@ func (t *Tr) ret(in *ssa.Return) {
 	if withCover {
 		t.vc.Items = append(t.vc.Items, Item{Kind: itOblig, Text: t.curReach, Name: fmt.Sprintf("cover/return#%d", t.retCount), Expect: "sat", Src: "return is reachable under the assumptions (non-vacuity)"})
 	}
+	// vacuity guard (every tier): the assumptions collected on the way to this
+	// return must not be contradictory. The query asks the solver to refute
+	// reachability; only a definite `unsat` is a failure.
+	t.vc.Items = append(t.vc.Items, Item{Kind: itOblig, Text: t.curReach, Name: fmt.Sprintf("novacuity/return#%d", t.retCount), Expect: "notunsat", Src: "assumptions on the path to this return are not contradictory"})
+	t.vc.NOblig++
 	env := t.envAt(nil)
 	env.cur = t.cur
 	env.old = t.entry
@@ -621,7 +626,11 @@ func (t *Tr) ret(in *ssa.Return) {
 		if err != nil {
 			efail("%s:%d: ensures#%d: %v", en.File, en.Line, i, err)
 		}
-		t.posts[i] = append(t.posts[i], Cl{t.guard(s.Q), t.guard(s.U)})
+		pc := Cl{Q: t.guard(s.Q), U: t.guard(s.U)}
+		if s.A != "" {
+			pc.A = t.guard(s.A)
+		}
+		t.posts[i] = append(t.posts[i], pc)
 	}
 	t.frameAtReturn()
 	t.retCount++
@@ -801,7 +810,7 @@ func (t *Tr) convert(in *ssa.Convert) {
 		h := t.heapGet(t.cur, elemHeapName(et), t.elemHeapSort(et))
 		v := t.havocVal(in)
 		t.assume(fmt.Sprintf("(= (strlen %s) (s-len %s))", v.S, x.S))
-		t.assume(fmt.Sprintf("(forall ((i Int)) (! (=> (and (<= 0 i) (< i (s-len %[2]s))) (= (strat %[1]s i) (select (select %[3]s (s-base %[2]s)) (+ (s-off %[2]s) i)))) :pattern ((strat %[1]s i))))", v.S, x.S, h))
+		t.assume(fmt.Sprintf("(forall ((i Int)) (! (=> (and (<= 0 i) (< i (s-len %[2]s))) (= (strat %[1]s i) (select (select %[3]s (s-base %[2]s)) (+ (s-off %[2]s) i)))) :pattern ((strat_raw %[1]s i))))", v.S, x.S, h))
 	case t.vc.sortOf(from) == t.vc.sortOf(to) && t.vc.sortOf(to) != "TUPLE" && !isStringType(to):
 		t.vals[in] = x
 	default:
@@ -982,7 +991,7 @@ func (t *Tr) chanInv(chTy types.Type, v Term, isSend bool, pos token.Pos, guard 
 		t.checkCl(fmt.Sprintf("chaninv/send#%d", i), s, "value sent satisfies the channel invariant "+ci.Src, pos)
 	} else {
 		if guard != "" {
-			s = Cl{fmt.Sprintf("(=> %s %s)", guard, s.Q), fmt.Sprintf("(=> %s %s)", guard, s.U)}
+			s = Cl{Q: fmt.Sprintf("(=> %s %s)", guard, s.Q), U: fmt.Sprintf("(=> %s %s)", guard, s.U)}
 		}
 		t.assumeCl(s, false)
 		t.vc.Trusted["channel invariant on "+key+" is stable between send and receive (heap-dependent parts)"] = true
